@@ -2,7 +2,7 @@
    Statements only (specification side; the sources and the Directory / RecursiveDirectory assets
    are compared with it by `srcdiff`, unreadable sub-directories by `sysdiff`). *)
 From Coq Require Import List String NArith Bool.
-From AM Require Import Ref.Tree Proofs.Tree.
+From AM Require Import Rust.Ast Gen.Dirs Ref.Tree Proofs.Tree Tie.Dirs.
 Import ListNotations.
 
 Theorem C11_dir_ids_are_exactly_the_matching_files : forall t exts d l,
@@ -13,3 +13,13 @@ Proof. exact dir_ids_exact. Qed.
 Theorem C11_missing_directory_is_an_error : forall t exts d,
   is_dir t d = false -> dir_ids t exts d = None /\ rec_dir_ids t exts d = None.
 Proof. exact missing_directory_is_an_error. Qed.
+
+(* the printed src/dirs.rs: select_ids keeps exactly the File entries whose extension is one of
+   T::EXTENSIONS (string equality), Directory::load = select, sort, dedup; RecursiveDirectory::load =
+   own directory (errors propagate) + every loadable child (errors skipped); Arc forwards *)
+Theorem C11_code_as_specified :
+  select_inner_wf select_ids_inner = true /\ select_wf select_ids = true /\
+  subdirs_wf sub_directories = true /\ arc_forwards Arc_select_ids "select_ids" = true /\
+  arc_forwards Arc_sub_directories "sub_directories" = true /\
+  dir_load_wf Directory_load = true /\ rec_load_wf RecursiveDirectory_load = true.
+Proof. exact dirs_as_specified. Qed.
